@@ -14,6 +14,13 @@ fn main() {
         println!("{} of 20 failed", fails);
         return;
     }
+    if std::env::args().nth(1).as_deref() == Some("stats-stress") {
+        let started = std::time::Instant::now();
+        let mut fails = 0;
+        for _ in 0..5 { if let Some(failure) = stats_stress_scenario(20_000, 2) { fails += 1; if fails == 1 { println!("{}", failure.message); } } }
+        println!("{} of 5 failed in {:?}", fails, started.elapsed());
+        return;
+    }
     let path = std::env::args().nth(1).unwrap();
     let n: usize = std::env::args().nth(2).and_then(|s| s.parse().ok()).unwrap_or(50);
     let replay = read_replay(&path).unwrap();
